@@ -176,27 +176,24 @@ fn observe(e: &SourceBlockEncoder) -> Observed {
 /// Reference answers, computed by one thread without any cache and outside shuttle (hook H3).
 struct Reference {
     encoders: BTreeMap<(u16, u8), Observed>,
-    plans: BTreeMap<u16, SourceBlockEncodingPlan>,
 }
 fn build_reference(s: &Scenario) -> Reference {
     let cfg = ObjectTransmissionInformation::new(0, T, 0, 1, 1);
     let mut encoders = BTreeMap::new();
-    let mut plans = BTreeMap::new();
     for req in s.threads.iter().flatten() {
-        match req {
-            Req::New { k, data_seed } => {
-                encoders.entry((*k, *data_seed)).or_insert_with(|| {
-                    let e = SourceBlockEncoder::verif_new_unplanned(7, &cfg, &data_for(*k, *data_seed), 250);
-                    observe(&e)
-                });
-            }
-            Req::Plan { k } => {
-                plans.entry(*k).or_insert_with(|| SourceBlockEncodingPlan::generate(*k));
-            }
-            Req::Crash => {}
-        }
+        let key = match req {
+            Req::New { k, data_seed } => (*k, *data_seed),
+            // a plan handed out by the cache is judged by what an encoder built from it produces
+            // (plans themselves need not be unique: any valid elimination order is a valid plan)
+            Req::Plan { k } => (*k, 0u8),
+            Req::Crash => continue,
+        };
+        encoders.entry(key).or_insert_with(|| {
+            let e = SourceBlockEncoder::verif_new_unplanned(7, &cfg, &data_for(key.0, key.1), 250);
+            observe(&e)
+        });
     }
-    Reference { encoders, plans }
+    Reference { encoders }
 }
 
 /// Trace of one execution: (thread, event, k, cache keys in insertion order). Plain std mutex: adds
@@ -265,10 +262,12 @@ fn execute(s: &Scenario, reference: &StdArc<Reference>, trace: &Trace) {
                     }
                     Req::Crash => unreachable!(),
                     Req::Plan { k } => {
-                        let plan = verif_plan_cache::get_or_generate(k);
+                        let plan: SourceBlockEncodingPlan = verif_plan_cache::get_or_generate(k);
+                        // with_encoding_plan itself rejects a plan generated for another symbol count
+                        let e = SourceBlockEncoder::with_encoding_plan(7, &cfg, &data_for(k, 0), &plan);
                         assert!(
-                            plan == reference.plans[&k],
-                            "ORACLE[plan-eq] plan handed out for K={k} is not the plan generated for K={k}"
+                            observe(&e) == reference.encoders[&(k, 0)],
+                            "ORACLE[plan-use] an encoder built from the plan the cache hands out for K={k} differs from the uncached single-thread encoder"
                         );
                     }
                 }
